@@ -4,8 +4,10 @@ import (
 	"context"
 	"errors"
 	"fmt"
+	"io"
 	"strings"
 	"sync"
+	"sync/atomic"
 
 	"github.com/rs/zerolog"
 	"github.com/rs/zerolog/diode/verifh/evid"
@@ -49,8 +51,23 @@ type node5 struct {
 	stack   bool
 	goctx   string
 	sampler bool
+	samp    *cntS5    // nearest Sample ancestor's sampler (nil: none)
+	plainW  bool      // Output was given a plain io.Writer (no WriteLevel)
 	ops     []*gen.Op // ops of the step (for description)
 }
+
+// cntS5 is a sampler with an identity: it counts how often it is consulted and admits or rejects everything.
+type cntS5 struct {
+	id    int
+	n     int64
+	admit bool
+}
+
+func (c *cntS5) Sample(zerolog.Level) bool { atomic.AddInt64(&c.n, 1); return c.admit }
+
+type plainW5 struct{ w io.Writer }
+
+func (p plainW5) Write(b []byte) (int, error) { return p.w.Write(b) }
 
 func (n *node5) desc() string {
 	s := fmt.Sprintf("n%d=n%d.%s", n.id, n.parent, n.step)
@@ -70,12 +87,22 @@ type tree5 struct {
 	g     *gen.G
 	st    gen.Settings
 	hookN int
+	samps []*cntS5
+}
+
+// sampCounts snapshots how often each sampler of the tree has been consulted.
+func (t *tree5) sampCounts() []int64 {
+	c := make([]int64, len(t.samps))
+	for i, s := range t.samps {
+		c[i] = atomic.LoadInt64(&s.n)
+	}
+	return c
 }
 
 // derive creates one child of parent p.
 func (t *tree5) derive(p *node5, r *rng.R) *node5 {
 	n := &node5{id: len(t.nodes), parent: p.id, w: p.w, fields: p.fields[:len(p.fields):len(p.fields)], hooks: p.hooks[:len(p.hooks):len(p.hooks)],
-		level: p.level, stack: p.stack, goctx: p.goctx, sampler: p.sampler}
+		level: p.level, stack: p.stack, goctx: p.goctx, sampler: p.sampler, samp: p.samp, plainW: p.plainW}
 	withOps := func(k int) (zerolog.Context, []*gen.Op) {
 		c := p.l.With()
 		var ops []*gen.Op
@@ -131,7 +158,14 @@ func (t *tree5) derive(p *node5, r *rng.R) *node5 {
 	case k == 6:
 		n.step = "Sample"
 		n.sampler = true
-		n.l = p.l.Sample(admitAll5{})
+		n.samp = &cntS5{id: len(t.samps), admit: !r.Chance(1, 6)}
+		t.samps = append(t.samps, n.samp)
+		if n.samp.admit {
+			n.step = "Sample(admit)"
+		} else {
+			n.step = "Sample(reject)"
+		}
+		n.l = p.l.Sample(n.samp)
 	case k == 7 || k == 8:
 		n.step = "Hook"
 		t.hookN++
@@ -146,7 +180,11 @@ func (t *tree5) derive(p *node5, r *rng.R) *node5 {
 	case k == 9:
 		n.step = "Output"
 		n.w = &gen.Rec{}
-		n.l = p.l.Output(n.w)
+		if n.plainW = r.Chance(1, 3); n.plainW {
+			n.l = p.l.Output(plainW5{n.w})
+		} else {
+			n.l = p.l.Output(n.w)
+		}
 	case k == 10:
 		n.step = "With.Ctx"
 		n.goctx = fmt.Sprintf("ctx-n%d", n.id)
@@ -168,6 +206,13 @@ var err5 = errors.New("e5")
 
 // expected fields of an event logged from node n with the given shape.
 func (t *tree5) expect(n *node5, lvl zerolog.Level, shape int, evctx string, id string) []gen.KVI {
+	return t.expectObs(n, lvl, shape, evctx, id, nil)
+}
+
+// expectObs: obs gives, for the probes of shape 3, the Go-context value the event actually shows at a path; it is
+// taken over into the expectation when it is the node's / event's own context or the background context (the
+// statement allows either), so that only a foreign context fails the match.
+func (t *tree5) expectObs(n *node5, lvl zerolog.Level, shape int, evctx string, id string, obs func(path ...string) string) []gen.KVI {
 	S := func(s string) *gen.Intent { return gen.Str(s) }
 	f := []gen.KVI{{Key: "level", Val: S(lvl.String())}}
 	f = append(f, n.fields...)
@@ -191,6 +236,21 @@ func (t *tree5) expect(n *node5, lvl zerolog.Level, shape int, evctx string, id 
 		f = append(f, gen.KVI{Key: "o", Val: gen.Obj(gen.KVI{Key: "ctx", Val: S(ctx)})})
 		f = append(f, gen.KVI{Key: "a", Val: gen.Arr(gen.Obj(gen.KVI{Key: "ctx", Val: S("bg")}))})
 		f = append(f, gen.KVI{Key: "d", Val: gen.Obj(gen.KVI{Key: "o", Val: gen.Obj(gen.KVI{Key: "ctx", Val: S("bg")})})})
+	case 3: // further places where user code can read GetCtx
+		own := func(path ...string) *gen.Intent {
+			if obs != nil {
+				if v := obs(path...); v == "bg" || v == ctx {
+					return S(v)
+				}
+			}
+			return S(ctx)
+		}
+		f = append(f, gen.KVI{Key: "fo", Val: gen.Obj(gen.KVI{Key: "ctx", Val: own("fo", "ctx")})})
+		f = append(f, gen.KVI{Key: "fc", Val: own("fc")})
+		f = append(f, gen.KVI{Key: "ctx", Val: own("ctx")})
+		f = append(f, gen.KVI{Key: "io", Val: gen.Obj(gen.KVI{Key: "ctx", Val: own("io", "ctx")})})
+		f = append(f, gen.KVI{Key: "am", Val: gen.Arr(gen.Obj(gen.KVI{Key: "ctx", Val: own("am", "0", "ctx")}))})
+		f = append(f, gen.KVI{Key: "errs", Val: gen.Arr(gen.Obj(gen.KVI{Key: "ctx", Val: own("errs", "0", "ctx")}))})
 	}
 	for _, h := range n.hooks {
 		f = append(f, gen.KVI{Key: fmt.Sprintf("h%d", h), Val: S(ctx)})
@@ -213,8 +273,52 @@ func (t *tree5) open(n *node5, lvl zerolog.Level, shape int, evctx string, id st
 		e = e.Err(err5)
 	case 2:
 		e = e.Object("o", ctxReader{}).Array("a", zerolog.Arr().Object(ctxReader{})).Dict("d", zerolog.Dict().Object("o", ctxReader{}))
+	case 3:
+		e = e.Fields(map[string]interface{}{"fo": ctxReader{}}).
+			Func(func(e *zerolog.Event) { e.Str("fc", ctxVal(e.GetCtx())) }).
+			EmbedObject(ctxReader{}).
+			Interface("io", ctxReader{}).
+			Array("am", arrReader{}).
+			Errs("errs", []error{errReader{}})
 	}
 	return e
+}
+
+// arrReader is an array marshaler whose element is an object reading GetCtx; errReader an error that marshals
+// as such an object.
+type arrReader struct{}
+
+func (arrReader) MarshalZerologArray(a *zerolog.Array) { a.Object(ctxReader{}) }
+
+type errReader struct{}
+
+func (errReader) Error() string                         { return "errReader" }
+func (errReader) MarshalZerologObject(e *zerolog.Event) { e.Str("ctx", ctxVal(e.GetCtx())) }
+
+// obsOf reads a string at a path of object keys / array indices out of a parsed event.
+func obsOf(obj *jsonv.Node) func(path ...string) string {
+	return func(path ...string) string {
+		n := obj
+		for _, k := range path {
+			if n == nil {
+				return ""
+			}
+			if n.Kind == jsonv.Array {
+				var i int
+				fmt.Sscan(k, &i)
+				if i >= len(n.Arr) {
+					return ""
+				}
+				n = n.Arr[i]
+			} else {
+				n = n.Get(k)
+			}
+		}
+		if n == nil {
+			return ""
+		}
+		return n.Str
+	}
 }
 
 type pending5 struct {
@@ -225,6 +329,8 @@ type pending5 struct {
 	id    string
 	e     *zerolog.Event
 	w0    int
+	sc0   []int64 // sampler counters before the event was started
+	sc1   []int64 // ... and right after
 }
 
 func c05(args []string) int {
@@ -275,7 +381,17 @@ func c05tree(out *evid.Out, f *evid.Flags, ti int, concurrent bool) {
 	// logOne emits one event from n and checks it against n's own derivation path
 	check := func(p *pending5, when string) {
 		ws := p.n.w.W[p.w0:]
-		enabled := p.lvl >= p.n.level
+		enabled := p.lvl >= p.n.level && (p.n.samp == nil || p.n.samp.admit)
+		// the sampler of the node's own path - and no other - was consulted, once, iff the level gate passed
+		for i := range p.sc0 {
+			wantInc := int64(0)
+			if p.n.samp != nil && p.n.samp.id == i && p.lvl >= p.n.level {
+				wantInc = 1
+			}
+			if i < len(p.sc1) && p.sc1[i]-p.sc0[i] != wantInc {
+				viol("sampler-of-another-path", fmt.Sprintf("%s: starting event %s on node n%d (%s) consulted sampler #%d %d time(s), expected %d (own sampler: %v)", when, p.id, p.n.id, p.n.desc(), i, p.sc1[i]-p.sc0[i], wantInc, p.n.samp != nil && p.n.samp.id == i))
+			}
+		}
 		// events of other pending chains may have landed on the same writer: select by id
 		var mine []gen.Write
 		for _, w := range ws {
@@ -299,7 +415,10 @@ func c05tree(out *evid.Out, f *evid.Flags, ti int, concurrent bool) {
 			viol("invalid", fmt.Sprintf("%s: node n%d: %v: %q", when, p.n.id, err, clipb(mine[0].P)))
 			return
 		}
-		want := t.expect(p.n, p.lvl, p.shape, p.evctx, p.id)
+		if wl := mine[0]; wl.ByLW == p.n.plainW || (wl.ByLW && wl.Level != p.lvl) {
+			viol("write-level", fmt.Sprintf("%s: node n%d: event of level %d reached its destination (plain io.Writer=%v) via WriteLevel=%v with level %d", when, p.n.id, p.lvl, p.n.plainW, wl.ByLW, wl.Level))
+		}
+		want := t.expectObs(p.n, p.lvl, p.shape, p.evctx, p.id, obsOf(obj))
 		if err := gen.MatchFields(obj, want, &st); err != nil {
 			sig := "path-mismatch"
 			if strings.Contains(err.Error(), `"ctx"`) || strings.Contains(err.Error(), `("h`) {
@@ -313,11 +432,14 @@ func c05tree(out *evid.Out, f *evid.Flags, ti int, concurrent bool) {
 	}
 	logOne := func(n *node5, when string) {
 		evN++
-		p := &pending5{n: n, lvl: zerolog.Level(r.Intn(5) - 1), shape: r.Intn(3), id: fmt.Sprintf("t%de%d", ti, evN), w0: len(n.w.W)}
+		p := &pending5{n: n, lvl: zerolog.Level(r.Intn(5) - 1), shape: r.Intn(4), id: fmt.Sprintf("t%de%d", ti, evN), w0: len(n.w.W)}
 		if r.Chance(1, 6) {
 			p.evctx = fmt.Sprintf("evctx-%d", evN)
 		}
-		t.open(n, p.lvl, p.shape, p.evctx, p.id).Msg("m")
+		p.sc0 = t.sampCounts()
+		e := t.open(n, p.lvl, p.shape, p.evctx, p.id)
+		p.sc1 = t.sampCounts()
+		e.Msg("m")
 		check(p, when)
 		out.Count("events_checked", 1)
 	}
@@ -370,11 +492,13 @@ func c05tree(out *evid.Out, f *evid.Flags, ti int, concurrent bool) {
 			for j := 0; j < k && i < len(perm); j, i = j+1, i+1 {
 				n := t.nodes[perm[i]]
 				evN++
-				p := &pending5{n: n, lvl: zerolog.Level(r.Intn(5) - 1), shape: r.Intn(3), id: fmt.Sprintf("t%de%d", ti, evN), w0: len(n.w.W)}
+				p := &pending5{n: n, lvl: zerolog.Level(r.Intn(5) - 1), shape: r.Intn(4), id: fmt.Sprintf("t%de%d", ti, evN), w0: len(n.w.W)}
 				if r.Chance(1, 5) {
 					p.evctx = fmt.Sprintf("evctx-%d", evN)
 				}
+				p.sc0 = t.sampCounts()
 				p.e = t.open(n, p.lvl, p.shape, p.evctx, p.id)
+				p.sc1 = t.sampCounts()
 				open = append(open, p)
 			}
 			for j := len(open) - 1; j > 0; j-- {
@@ -420,6 +544,9 @@ func c05tree(out *evid.Out, f *evid.Flags, ti int, concurrent bool) {
 		if n.step == "With.Ctx" {
 			nCtx++
 		}
+		if strings.HasPrefix(n.step, "Sample") {
+			out.Count("step_Sample", 1)
+		}
 		out.Count("step_"+n.step, 1)
 	}
 	if concurrent || ti%10 == 0 {
@@ -448,17 +575,23 @@ func hasOutputAncestor(t *tree5, n *node5) bool {
 	return false
 }
 
-// c05concurrent: one goroutine per node logs through it while others derive further children from
-// the shared ancestors; every event must still be its node's own path.
+// c05concurrent: one goroutine per node logs through it while it and the others derive further children (With,
+// Hook, Level, Sample, Output - rotating) from the shared nodes and log through those; every event - the node's
+// and the throw-away child's - must still be its own path, and every sampler must have been consulted exactly
+// as often as events passed the level gate on the paths below it.
 func c05concurrent(out *evid.Out, t *tree5, ti int, r *rng.R, viol func(string, string)) {
 	var wg sync.WaitGroup
 	start := make(chan struct{})
 	type res struct {
-		n  *node5
-		id string
+		n     *node5 // the node whose path the event must show (a temporary child node for child events)
+		id    string
+		shape int
 	}
 	var mu sync.Mutex
 	var done []res
+	sc0 := t.sampCounts()
+	wantInc := make([]int64, len(t.samps))
+	hookBase := int64(t.hookN + 1000)
 	for _, n := range t.nodes {
 		wg.Add(1)
 		go func(n *node5) {
@@ -466,18 +599,43 @@ func c05concurrent(out *evid.Out, t *tree5, ti int, r *rng.R, viol func(string, 
 			<-start
 			for i := 0; i < 6; i++ {
 				id := fmt.Sprintf("t%dc%d-%d", ti, n.id, i)
-				t.open(n, zerolog.ErrorLevel, i%3, "", id).Msg("m")
+				t.open(n, zerolog.ErrorLevel, i%4, "", id).Msg("m")
 				// derive and use a throw-away child of this (shared) node
-				c := n.l.With().Str("tmp", id).Logger()
-				c.WithLevel(zerolog.ErrorLevel).Str("id", id+"-child").Msg("m")
+				child := &node5{id: -1, parent: n.id, w: n.w, fields: n.fields[:len(n.fields):len(n.fields)], hooks: n.hooks[:len(n.hooks):len(n.hooks)],
+					level: n.level, stack: n.stack, goctx: n.goctx, samp: n.samp, plainW: n.plainW}
+				switch (n.id + i) % 5 {
+				case 0, 1:
+					child.l = n.l.With().Str("tmp", id).Logger()
+					child.fields = append(child.fields, gen.KVI{Key: "tmp", Val: gen.Str(id)})
+				case 2:
+					h := int(atomic.AddInt64(&hookBase, 1))
+					child.l = n.l.Hook(hook5{h})
+					child.hooks = append(child.hooks, h)
+				case 3:
+					child.level = zerolog.WarnLevel
+					child.l = n.l.Level(zerolog.WarnLevel)
+				default:
+					child.w = &gen.Rec{}
+					child.l = n.l.Output(child.w)
+				}
+				cid := id + "-child"
+				t.open(child, zerolog.ErrorLevel, 0, "", cid).Msg("m")
 				mu.Lock()
-				done = append(done, res{n, id})
+				done = append(done, res{n, id, i % 4}, res{child, cid, 0})
+				if n.samp != nil && zerolog.ErrorLevel >= n.level {
+					wantInc[n.samp.id] += 2 // the node's event and the child's (same sampler, level gate passed)
+				}
 				mu.Unlock()
 			}
 		}(n)
 	}
 	close(start)
 	wg.Wait()
+	for i, c := range t.sampCounts() {
+		if c-sc0[i] != wantInc[i] {
+			viol("concurrent-sampler-count", fmt.Sprintf("sampler #%d was consulted %d times during the concurrent phase, the events on the paths below it account for %d", i, c-sc0[i], wantInc[i]))
+		}
+	}
 	for _, d := range done {
 		var mine []gen.Write
 		d.n.w.Lock()
@@ -487,8 +645,15 @@ func c05concurrent(out *evid.Out, t *tree5, ti int, r *rng.R, viol func(string, 
 			}
 		}
 		d.n.w.Unlock()
+		enabled := zerolog.ErrorLevel >= d.n.level && (d.n.samp == nil || d.n.samp.admit)
+		if !enabled {
+			if len(mine) != 0 {
+				viol("concurrent-level-leak", fmt.Sprintf("node n%d (child of n%d): a rejected event %s was written", d.n.id, d.n.parent, d.id))
+			}
+			continue
+		}
 		if len(mine) != 1 {
-			viol("concurrent-write-count", fmt.Sprintf("node n%d: %d writes for event %s", d.n.id, len(mine), d.id))
+			viol("concurrent-write-count", fmt.Sprintf("node n%d (child of n%d): %d writes for event %s", d.n.id, d.n.parent, len(mine), d.id))
 			continue
 		}
 		obj, err := jsonv.ParseLine(mine[0].P)
@@ -496,11 +661,9 @@ func c05concurrent(out *evid.Out, t *tree5, ti int, r *rng.R, viol func(string, 
 			viol("invalid", fmt.Sprintf("concurrent: %v: %q", err, clipb(mine[0].P)))
 			continue
 		}
-		var shape int
-		fmt.Sscanf(d.id[strings.LastIndex(d.id, "-")+1:], "%d", &shape)
-		want := t.expect(d.n, zerolog.ErrorLevel, shape%3, "", d.id)
+		want := t.expectObs(d.n, zerolog.ErrorLevel, d.shape, "", d.id, obsOf(obj))
 		if err := gen.MatchFields(obj, want, &t.st); err != nil {
-			viol("concurrent-path-mismatch", fmt.Sprintf("node n%d emitted %q under concurrent derivation/logging: %v", d.n.id, clipb(mine[0].P), err))
+			viol("concurrent-path-mismatch", fmt.Sprintf("node n%d (child of n%d) emitted %q under concurrent derivation/logging: %v", d.n.id, d.n.parent, clipb(mine[0].P), err))
 		}
 		out.Count("concurrent_events_checked", 1)
 	}
